@@ -510,27 +510,69 @@ func rawBytes(c *Ctx) {
 		if len(d.fd.Type.Params.List) > 0 && len(d.fd.Type.Params.List[0].Names) > 0 {
 			r = d.pkg.TypesInfo.Defs[d.fd.Type.Params.List[0].Names[0]]
 		}
-		uses := 0
-		okUse := false
-		ast.Inspect(d.fd.Body, func(x ast.Node) bool {
-			if id, ok := x.(*ast.Ident); ok && objOf(d.pkg, id) == r && r != nil {
-				uses++
-			}
-			if ce, ok := x.(*ast.CallExpr); ok {
-				if f, _ := typeutil.Callee(d.pkg.TypesInfo, ce).(*types.Func); f != nil {
-					full := f.FullName()
-					if full == "github.com/CycloneDX/cyclonedx-go.NewBOMDecoder" || full == "github.com/spdx/tools-golang/json.Read" {
-						if len(ce.Args) > 0 && objOf(d.pkg, ce.Args[0]) == r {
-							okUse = true
-						}
-					}
-				}
-			}
-			return true
-		})
+		uses, okUse := streamUses(c, d, r, 0)
 		c.check(uses == 1 && okUse, R, fname, c.P.Pos(d.fd.Pos()), "the stream goes only to the JSON decoder",
 			fmt.Sprintf("the input stream is used %d times (decoder use found: %v): protobom code that reads the raw bytes itself makes the result depend on the JSON layout", uses, okUse))
 	}
+}
+
+// streamUses counts the uses of the stream parameter r in d and tells whether a use hands it to
+// the third-party decoder, directly or through a helper of the module that does the same with its
+// own parameter (a wrapper that contains a panic of the decoder, say).
+func streamUses(c *Ctx, d *declInfo, r types.Object, depth int) (uses int, okUse bool) {
+	if r == nil || depth > 3 {
+		return 0, false
+	}
+	ast.Inspect(d.fd.Body, func(x ast.Node) bool {
+		if id, ok := x.(*ast.Ident); ok && objOf(d.pkg, id) == r {
+			uses++
+		}
+		ce, ok := x.(*ast.CallExpr)
+		if !ok {
+			return true
+		}
+		f, _ := typeutil.Callee(d.pkg.TypesInfo, ce).(*types.Func)
+		if f == nil {
+			return true
+		}
+		full := f.FullName()
+		if full == "github.com/CycloneDX/cyclonedx-go.NewBOMDecoder" || full == "github.com/spdx/tools-golang/json.Read" {
+			if len(ce.Args) > 0 && objOf(d.pkg, ce.Args[0]) == r {
+				okUse = true
+			}
+			return true
+		}
+		if f.Pkg() == nil || !strings.HasPrefix(f.Pkg().Path(), modPath+"/") {
+			return true
+		}
+		for ai, a := range ce.Args {
+			if objOf(d.pkg, a) != r {
+				continue
+			}
+			gfd, gpk := c.P.FuncDecl(objName(f))
+			if gfd == nil || gfd.Body == nil {
+				continue
+			}
+			var po types.Object
+			k := 0
+			for _, fl := range gfd.Type.Params.List {
+				for _, nm := range fl.Names {
+					if k == ai {
+						po = gpk.TypesInfo.Defs[nm]
+					}
+					k++
+				}
+			}
+			gu, gok := streamUses(c, &declInfo{fd: gfd, pkg: gpk, obj: f, name: objName(f)}, po, depth+1)
+			if gu == 1 && gok {
+				okUse = true
+			} else {
+				uses += gu // the helper reads the stream some other way
+			}
+		}
+		return true
+	})
+	return uses, okUse
 }
 
 // idAlphabet: C05-D6 — the escape pattern of the identifier generator.
